@@ -62,8 +62,7 @@ struct Model
   set<U> nodes;
   map<U, pair<U, U>> edges; // id -> (from,to); unordered when !directed
   map<U, int> tags;         // id -> tag of the attached edge object (observer cases only)
-  bool endsUnreliable;      // the graph went through makeDirected(): getNodes(edge) may be reversed on the unrepaired tree (C14's file)
-  Model() : directed(true), root(0), endsUnreliable(false) {}
+  Model() : directed(true), root(0) {}
 
   vector<U> outN(U v) const
   {
@@ -592,11 +591,10 @@ struct Ctx
 {
   string hist; // textual history of the running case
   string op;   // structural class of the last edit (kind + mode): part of the witness class of edit/validity clauses
-  bool endsStale; // getNodes(edge) observed reversed after makeDirected() (defect owned by C14): getBottom-based queries skipped
   bool dead;   // the real structure diverged from the model: the case stops
   bool lastValidAnswer, lastRootedAnswer; // last observed isValid / isRooted answers (what a cache would hold)
   set<string> editsSince;                 // kinds of edits made since those answers
-  Ctx() : endsStale(false), dead(false), lastValidAnswer(false), lastRootedAnswer(false) {}
+  Ctx() : dead(false), lastValidAnswer(false), lastRootedAnswer(false) {}
   // structural suffix for a wrong "true": was it a fresh evaluation or possibly a cached answer, and after which kind of edit
   string staleClass(bool lastAnswer) const
   {
@@ -638,10 +636,14 @@ bool checkStructure(const GlobalGraph& g, Model& m, Ctx& c, StructCtx sc)
     if (!callQ(CL_EDGESET[sc], cls, c, "getNodes(" + str(e.first) + ")", ends, [&] { return g.getNodes(e.first); })) { c.dead = true; return false; }
     bool same = ends == e.second, swapped = ends.first == e.second.second && ends.second == e.second.first;
     if (!CHK(same || swapped, CL_EDGESET[sc], cls, bad("getNodes(" + str(e.first) + ")=(" + str(ends.first) + "," + str(ends.second) + ")"))) return false;
+    // In a directed graph the end points recorded for an edge are (father, son) of the link, whatever the graph went through before
+    // (built top-down, re-rooted, un-rooted and re-rooted: makeDirected() chooses a direction for every relation and must record it for
+    // the edge as well, switchNodes() only rewrites the links the re-rooting flips).  getTop/getBottom, the observers' getSon/getFatherOfEdge
+    // and getSubtreeEdges read that record.  (A former tolerance for records left reversed by makeDirected() - C14's defect b602af1,
+    // repaired in the library - is gone: it hid every regression of that record, see notes "Strengthened after seeded change C15-s9".)
     if (m.directed && !same)
     {
-      if (m.endsUnreliable) { if (!c.endsStale) vrt::tally("avoided:C14-makeDirected-leaves-edge-end-points-reversed"); c.endsStale = true; }
-      else if (!CHK(false, CL_ORIENT[sc], cls + ":edge-end-points", bad("getNodes(" + str(e.first) + ")=(" + str(ends.first) + "," + str(ends.second) + ") is the reverse of the link"))) return false;
+      if (!CHK(false, CL_ORIENT[sc], cls + ":edge-end-points", bad("getNodes(" + str(e.first) + ")=(" + str(ends.first) + "," + str(ends.second) + ") is the reverse of the link"))) return false;
     }
     else ++counters()[CL_ORIENT[sc]];
   }
@@ -667,7 +669,6 @@ bool checkStructure(const GlobalGraph& g, Model& m, Ctx& c, StructCtx sc)
 void resync(const GlobalGraph& g, Model& m, const function<int(U)>& tagOfReal)
 {
   Model n;
-  n.endsUnreliable = m.endsUnreliable;
   n.directed = g.isDirected();
   n.root = g.getRoot();
   for (U v : g.getAllNodes()) n.nodes.insert(v);
@@ -836,7 +837,6 @@ void checkTreeQueries(TreeView& v, const Model& m, const RTree& t, const QueryPl
       vector<U> sn, en = t.subtreeNodes(x);
       if (callQ("tree.subtreeNodes", K + ":" + kind, c, "getSubtreeNodes(" + sx + ")", sn, [&] { return v.subtreeNodes(x); }))
         CHK(sorted(sn) == en, "tree.subtreeNodes", K + ":" + kind, W("getSubtreeNodes(" + sx + ")=" + lst(sn) + " expected " + lst(en)));
-      if (!c.endsStale)
       {
         vector<long> se, ee = v.keysOf(m, t.subtreeEdges(x));
         sort(ee.begin(), ee.end());
@@ -1262,11 +1262,22 @@ struct TreeSut
       m.edges = oriented;
       m.root = r;
       m.directed = true;
-      if (!wasDirected) m.endsUnreliable = true;
     }
     c.op = "rootAt:" + string(wasDirected ? "from-rooted" : "from-unrooted");
+    // Which record of the branches' end points does this re-rooting rely on?  From the un-rooted state the library first gives every
+    // relation an arbitrary direction (makeDirected) and then flips the links that point to the new root.  A branch whose record from
+    // before the un-rooting is the reverse of its final direction and which is NOT among the flipped ones (whatever the arbitrary
+    // direction is: it is one of the two) is right only if the conversion itself rewrites the record.
+    bool recordAgainst = false;
+    if (!wasDirected)
+      for (auto& e : m.edges)
+      {
+        const pair<U, U>& was = before.edges.at(e.first);
+        if (was.first == e.second.second && was.second == e.second.first) recordAgainst = true;
+      }
     if (!after(S_REROOT)) return;
     vrt::cover("reroot:" + cls + (r == before.root ? ":same-root" : ""));
+    if (!wasDirected) vrt::cover("reroot:" + cls + (recordAgainst ? ":some-branch-recorded-the-other-way-before-un-rooting" : ":all-branches-recorded-in-final-direction"));
     for (TreeView* v : views())
     {
       const string K = v->kind();
@@ -1308,7 +1319,7 @@ struct TreeSut
   {
     RTree t(m);
     for (TreeView* v : views()) checkTreeQueries(*v, m, t, p, c);
-    if (obsLayer && !c.endsStale) checkEdgeEnds();
+    if (obsLayer) checkEdgeEnds();
     if (obsLayer) checkIndexForms(t, p);
   }
   // object level, index forms: the same queries asked with the *index* of the node / edge object and answered in indexes.
@@ -1365,7 +1376,6 @@ struct TreeSut
           vrt::cover("leavesUnder:" + cls);
         }
       }
-      if (!c.endsStale)
       {
         vector<U> se, ee;
         for (U e : t.subtreeEdges(x)) if (m.tagOf(e) >= 0) ee.push_back(EI(e));
@@ -1374,7 +1384,6 @@ struct TreeSut
           CHK(sorted(se) == ee, "tree.subtreeEdges", K + ":" + kind, W("getSubtreeEdges(" + sx + ")=" + lst(se) + " expected edge indexes " + lst(ee)));
       }
     }
-    if (c.endsStale) return;
     for (auto& e : m.edges)
     {
       if (m.tagOf(e.first) < 0) continue;
@@ -1484,6 +1493,9 @@ bool buildTree(TreeSut& t, const ParArr& p, vector<U>& ids, bool edgeObjects)
 void shapeCase(vrt::Case& c, const ParArr& p, bool allSubsets, size_t nSubsets, size_t maxRoots)
 {
   size_t n = p.size();
+  // private stream for the "re-root, un-root, re-root" histories (seeded from a copy: the case stream itself is not advanced)
+  vrt::Rng xr;
+  { vrt::Rng tmp = c.rng; xr.reseed(vrt::mix(tmp.next(), 0xC15509u)); }
   for (int layer = 0; layer < 2; ++layer)
   {
     vector<size_t> roots;
@@ -1499,12 +1511,31 @@ void shapeCase(vrt::Case& c, const ParArr& p, bool allSubsets, size_t nSubsets, 
       if (k == 0 || c.rng.chance(0.5)) t.checkValidity(); // sometimes the validity was never asked before re-rooting
       if (k > 0)
       {
-        if (c.rng.chance(0.25)) { t.opUnRoot(false); if (t.c.dead) return; if (c.rng.chance(0.5)) t.checkValidity(); }
+        if (c.rng.chance(0.25))
+        {
+          // from the un-rooted state; in half of these the tree was re-rooted somewhere else before it was un-rooted, so that its
+          // branches do not run in the order the nodes were created (a tree built top-down has every father older than its sons)
+          if (xr.chance(0.5))
+          {
+            t.opRootAt(ids[xr.below(n)]);
+            if (t.c.dead) return;
+            if (xr.chance(0.5)) t.checkValidity();
+          }
+          t.opUnRoot(false);
+          if (t.c.dead) return;
+          if (c.rng.chance(0.5)) t.checkValidity();
+        }
         t.opRootAt(ids[roots[k - 1]]);
         if (t.c.dead) return;
         t.checkValidity();
-        if (c.rng.chance(0.3)) // a second re-rooting, back or elsewhere
+        if (c.rng.chance(0.3)) // a second re-rooting, back or elsewhere; sometimes through the un-rooted state
         {
+          if (xr.chance(0.3))
+          {
+            t.opUnRoot(false);
+            if (t.c.dead) return;
+            if (xr.chance(0.5)) t.checkValidity();
+          }
           t.opRootAt(ids[c.rng.below(n)]);
           if (t.c.dead) return;
           t.checkValidity();
@@ -1640,7 +1671,7 @@ void treeHistoryStep(TreeSut& t, vrt::Rng& rng)
       if (w < 92)
       {
         if (t.obsLayer) { t.opSetRoot(a); return; }
-        if (m.edges.empty() || t.c.endsStale || m.endsUnreliable) continue;
+        if (m.edges.empty()) continue;
         auto it = m.edges.begin();
         advance(it, static_cast<long>(rng.below(m.edges.size())));
         if (it->second.first == it->second.second) continue;
@@ -2299,7 +2330,7 @@ int main(int argc, char** argv)
   vrt::Meta meta;
   meta.rule = "tree-shapes: every parent array par[i]<i on 1..7 nodes (all rooted shapes, several labelings each), built through random routes on the plain "
       "TreeGraphImpl<GlobalGraph> and on the AssociationTreeGraphImplObserver, all queries for every node / ordered node pair / node subset, then re-rooting at every node "
-      "(from the rooted and from the un-rooted state) with all queries again; tree-random: the same on random trees of 8..12 nodes (six shape families); tree-history: "
+      "(from the rooted state, from the un-rooted state, and from the un-rooted state of a tree that had been re-rooted elsewhere before) with all queries again; tree-random: the same on random trees of 8..12 nodes (six shape families); tree-history: "
       "random histories of createNode/createNodeFromNode/createNodeOnEdge/addSon/setFather/removeSon(s)/deleteNode/rootAt/unRoot/setRoot with isValid/isRooted and sampled "
       "queries at random moments; edge-attach: every (node,new father) of every tree on <=5 (thorough 6) nodes with each way of passing an edge id / edge object; "
       "dag-enumeration: all digraphs without self-loop on <=4 nodes and all forward-link graphs on 5,6 nodes (every DAG shape), validity/rootedness/fathers/sons/below queries "
@@ -2319,7 +2350,8 @@ int main(int argc, char** argv)
     "after unRoot(true) the former root may stay as an isolated node or be removed; the kept root may be either former son",
     "DAG re-rooting is outside the statement: only 'same links, ids and objects' is demanded; DAG lists may repeat a node reached along two paths (compared as sets)",
     "inputs in defect areas owned by C14 are not generated: edits needing unlink in undirected graphs, links on absent nodes, a second link between the same two nodes, "
-    "explicit edge ids in the range the graph allocates itself; after makeDirected() reversed edge end points are tolerated and getBottom-based queries skipped",
+    "explicit edge ids in the range the graph allocates itself",
+    "in a directed (rooted) graph the end points recorded for an edge are (father, son) of the link also after un-rooting and re-rooting (makeDirected): no tolerance",
     "the tree observer refuses edge objects it does not know (bpp exception): accepted, counted as unjudged",
     "node / edge indexes are arbitrary user labels without relation to graph ids; index bookkeeping itself (setNodeIndex/addNodeIndex refusing, an edge object losing its index when moved) "
     "is outside the statement: lost indexes are given again, a refused assignment switches the index forms off for that case (tallied)",
